@@ -310,10 +310,20 @@ where
             } else if implicit_rule.as_ref() == Some(astrulename) {
                 // Add the implicit rule: ~: "IMPLICIT_TOKEN_1" ~ | ... | "IMPLICIT_TOKEN_N" ~ | ;
                 let implicit_prods = &mut rules_prods[usize::from(rule_map[astrulename])];
-                // Add a production for each implicit token
-                for t in ast.implicit_tokens.as_ref().unwrap().keys() {
+                // Add a production for each implicit token. `implicit_tokens` is a `HashMap` whose
+                // iteration order differs from process to process: number the productions in
+                // token index order so that the same source always gives the same grammar.
+                let mut implicit_tidxs = ast
+                    .implicit_tokens
+                    .as_ref()
+                    .unwrap()
+                    .keys()
+                    .map(|t| token_map[t])
+                    .collect::<Vec<_>>();
+                implicit_tidxs.sort_unstable();
+                for tidx in implicit_tidxs {
                     implicit_prods.push(PIdx(prods.len().as_()));
-                    prods.push(Some(vec![Symbol::Token(token_map[t]), Symbol::Rule(ridx)]));
+                    prods.push(Some(vec![Symbol::Token(tidx), Symbol::Rule(ridx)]));
                     prod_precs.push(Some(None));
                     prods_rules.push(Some(ridx));
                 }
@@ -1306,6 +1316,38 @@ mod test {
         assert_eq!(grm.prod_precs[4].unwrap(), Precedence{level: 1, kind: AssocKind::Left});
         assert!(grm.prod_precs[5].is_none());
         assert_eq!(grm.prod_precs[6], None);
+    }
+
+    #[test]
+    fn test_implicit_tokens_production_order_is_reproducible() {
+        // `%implicit_tokens` are kept in a `HashMap` with a per-instance random seed: the
+        // productions `~: T ~` must nevertheless be numbered the same on every build.
+        let src = "
+          %implicit_tokens ws1 ws2 ws3 ws4
+          %start S
+          %%
+          S: 'a';
+          ";
+        let first = YaccGrammar::new(YaccKind::Eco, src).unwrap();
+        let implicit_ridx = first.rule_idx(IMPLICIT_RULE).unwrap();
+        let toks = first.rules_prods[usize::from(implicit_ridx)]
+            .iter()
+            .map(|pidx| first.prods[usize::from(*pidx)].first().cloned())
+            .collect::<Vec<_>>();
+        assert_eq!(
+            toks,
+            vec![
+                Some(Symbol::Token(first.token_idx("ws1").unwrap())),
+                Some(Symbol::Token(first.token_idx("ws2").unwrap())),
+                Some(Symbol::Token(first.token_idx("ws3").unwrap())),
+                Some(Symbol::Token(first.token_idx("ws4").unwrap())),
+                None
+            ]
+        );
+        for _ in 0..32 {
+            let grm = YaccGrammar::new(YaccKind::Eco, src).unwrap();
+            assert_eq!(grm.prods, first.prods);
+        }
     }
 
     #[test]
